@@ -77,6 +77,8 @@ class Ctx:
                   witness=None, instance=None):
         qual = getattr(func_or_qual, "qualname", func_or_qual)
         dem = getattr(self, "_demoted", {}).get(rule)
+        if isinstance(dem, tuple):
+            dem = dem[0] if qual in dem[1] else None
         if dem is not None:
             # a structural (idiom-bound, sufficient) rule that is not satisfied while the clause it supports was decided by
             # evaluation: recorded, not reported (see DESIGN 10.9)
@@ -103,12 +105,13 @@ class Ctx:
         self.instances.append((rule, instance or key, "violated", message))
         return f
 
-    def demote(self, rules, by):
-        """Until restore(): violations of the given structural rules become notices (the clause was decided by `by`)."""
+    def demote(self, rules, by, only_in=None):
+        """Until restore(): violations of the given structural rules become notices (the clause was decided by `by`); with only_in,
+        only those located in the named functions."""
         prev = dict(getattr(self, "_demoted", {}))
         cur = dict(prev)
         for r in rules:
-            cur[r] = by
+            cur[r] = by if only_in is None else (by, set(only_in))
         self._demoted = cur
         return prev
 
@@ -122,7 +125,7 @@ class Ctx:
     def need(self, rule, what, n, minimum):
         """Fail closed when a rule finds fewer instances than were confirmed
         by hand: a rule that matches nothing must not pass vacuously."""
-        if n < minimum and getattr(self, "_demoted", {}).get(rule) is not None:
+        if n < minimum and isinstance(getattr(self, "_demoted", {}).get(rule), str):
             self.notice(rule, "only %d %s found (%d expected): idiom not recognised; the clause is decided by %s" % (n, what, minimum, self._demoted[rule]))
             return
         if n < minimum:
